@@ -75,7 +75,7 @@ partial def parseJ (cs : List Char) : Option (J × List Char) :=
   match cs with
   | '[' :: rest => parseArr rest []
   | _ =>
-    let (tok, rest) := cs.span (fun c => c != ',' && c != ']' && c != ' ' && c != '[')
+    let (tok, rest) := cs.span (fun c => c != ',' && c != ']' && c != ' ' && c != '[' && c != '\n' && c != '\r')
     if tok.isEmpty then none else some (.atom (String.ofList tok), rest)
 where
   parseArr (cs : List Char) (acc : List J) : Option (J × List Char) :=
